@@ -16,7 +16,7 @@
 //
 // stdout: lines starting with a lower-case keyword are operations (fed verbatim to the OCaml driver of
 // the model), lines starting with an upper-case letter are observations the model must reproduce byte
-// for byte, except 'T', 'G' and 'X' lines (PGN checks: implementation only, no model).
+// for byte, except 'T', 'A', 'G' and 'X' lines (PGN checks: implementation only, no model).
 //   pos <fenhex>     -> "E <code>"  |  "P <state>" , "R <readFEN(toFEN(p)) == p> <toFEN hex>" , "M <uci>:<short>:<long>:<ps>:<pl>:<pu>:<n|c<replies>> ..." (sorted by uci; "M -")
 //   stm <fenhex> ..  -> "E <code>"  |  "S f.t.p f.t.p ..."
 //   ucm ..           -> "V f.t.p ..."
@@ -264,59 +264,110 @@ static std::string escComment(const std::string& s) {
     return r;
 }
 
-// the harness's own PGN writer (the repo has no writer for comments/NAGs): standard movetext layout
-static void writeLine(std::ostream& os, Rng& rng, Position pos, const TNode& n, bool longForm) {
+// ---- the harness's own PGN writer (the repo has no writer for comments/NAGs) ----
+// The tree is first turned into a TOKEN list; the printer then chooses, per token boundary and from the
+// seeded generator, whether the two tokens are glued or separated (blank, tab, line break, CR LF, several).
+// Gluing is allowed wherever the PGN token grammar allows it, i.e. everywhere except
+//   symbol|integer followed by symbol|integer   (they would merge:  "e4 e5", "e4 2", "1 e4")
+//   NAG followed by a token starting with a digit ("$1 2." , "$1 1-0")
+// so every push-back / look-ahead site of PgnScanner::nextToken is exercised:
+//   (S1) the character ending a NAG is pushed back:     $1)  $1(  $1{  $1;  $1$2  $1Nf3  $1*  $1<eof>
+//   (S2) the character ending a symbol/integer is pushed back:  e4)  e4(  e4{  e4;  e4$1  e4*  1.  Event"x"  e4<eof>
+//   (S3) getTokenChar delivers the pushed-back character first (the glued token is the next token)
+//   (S4) end of input is turned into one '\n' (a token at the very end of the text, no trailing blank)
+//   (S5) '{'...'}' and ';'...EOL comments and '"' strings end on their own delimiter (no push-back): }x  "]
+enum PK { K_LBRACKET, K_RBRACKET, K_TAGNAME, K_STRING, K_INT, K_PERIOD, K_MOVE, K_NAG, K_LPAREN, K_RPAREN,
+          K_BRACE, K_LINE, K_RESULT, K_ASTERISK, K_NKINDS };
+static const char* pkName[] = {"lbracket", "rbracket", "tagname", "string", "int", "period", "move", "nag", "lparen", "rparen",
+                               "brace", "linecomment", "result", "asterisk"};
+struct PTok { int kind; std::string text; };
+
+static bool symbolLike(int k) { return k == K_MOVE || k == K_INT || k == K_RESULT || k == K_TAGNAME; }
+static bool needSep(const PTok& a, const PTok& b) {
+    if (symbolLike(a.kind) && symbolLike(b.kind)) return true;
+    if (a.kind == K_NAG && !b.text.empty() && isdigit((unsigned char)b.text[0])) return true;
+    return false;
+}
+
+static void emitComment(std::vector<PTok>& out, Rng& rng, const std::string& raw, bool allowLine) {
+    std::string t = escComment(raw);
+    if (t.empty()) return;
+    // the parser concatenates consecutive comments: some are written in two pieces, some as rest-of-line comments
+    if (t.size() >= 2 && rng.chance(35)) {
+        size_t k = 1 + rng.below((int)t.size() - 1);
+        out.push_back({K_BRACE, "{" + t.substr(0, k) + "}"});
+        out.push_back({K_BRACE, "{" + t.substr(k) + "}"});
+    } else if (allowLine && t.find('\n') == std::string::npos && t.find('\r') == std::string::npos && rng.chance(30)) {
+        out.push_back({K_LINE, ";" + t + (rng.chance(80) ? "\n" : "\r")});
+    } else {
+        out.push_back({K_BRACE, "{" + t + "}"});
+    }
+}
+
+static void emitLine(std::vector<PTok>& out, Rng& rng, Position pos, const TNode& n, bool longForm) {
     if (n.children.empty()) return;
     const TNode& main = n.children[0];
-    auto writeMove = [&](const TNode& c) {
-        if (!c.pre.empty()) {
-            std::string t = escComment(c.pre);
-            if (t.size() >= 2 && rng.chance(35)) {
-                size_t k = 1 + rng.below((int)t.size() - 1);
-                os << "{" << t.substr(0, k) << "}{" << t.substr(k) << "} ";
-            } else {
-                os << "{" << t << "} ";
-            }
+    auto emitMove = [&](const TNode& c) {
+        if (!c.pre.empty()) emitComment(out, rng, c.pre, true);
+        bool number = pos.isWhiteMove() ? rng.chance(85) : rng.chance(40);
+        if (number) {
+            out.push_back({K_INT, std::to_string(pos.getFullMoveCounter())});
+            int dots = pos.isWhiteMove() ? 1 : 3;
+            for (int i = 0; i < dots; i++) out.push_back({K_PERIOD, "."});
         }
-        if (pos.isWhiteMove()) os << pos.getFullMoveCounter() << ". ";
-        else if (rng.chance(50)) os << pos.getFullMoveCounter() << "... ";
         std::string ms = TextIO::moveToString(pos, c.move, longForm);
         bool glyph = c.nag >= 1 && c.nag <= 6 && rng.chance(50);
         static const char* glyphs[] = {"", "!", "?", "!!", "??", "!?", "?!"};
-        os << ms;
-        if (glyph) os << glyphs[c.nag];
-        os << ' ';
+        if (glyph) ms += glyphs[c.nag];
+        out.push_back({K_MOVE, ms});
         bool nagFirst = rng.chance(50);
-        if (c.nag > 0 && !glyph && nagFirst) os << '$' << c.nag << ' ';
-        if (!c.post.empty()) {
-            // the parser concatenates all comments that follow a move: write some of them in two pieces,
-            // some as a rest-of-line comment
-            std::string t = escComment(c.post);
-            if (t.size() >= 2 && rng.chance(35)) {
-                size_t k = 1 + rng.below((int)t.size() - 1);
-                os << "{" << t.substr(0, k) << "} {" << t.substr(k) << "} ";
-            } else if (t.find('\n') == std::string::npos && t.find('\r') == std::string::npos && rng.chance(25)) {
-                os << ";" << t << "\n";
-            } else {
-                os << "{" << t << "} ";
-            }
-        }
-        if (c.nag > 0 && !glyph && !nagFirst) os << '$' << c.nag << ' ';
+        // the parser keeps the LAST NAG of a move: sometimes a decoy NAG is written in front of the real one
+        auto emitNag = [&]() {
+            if (rng.chance(15)) out.push_back({K_NAG, "$" + std::to_string(1 + rng.below(250))});
+            out.push_back({K_NAG, "$" + std::to_string(c.nag)});
+        };
+        if (c.nag > 0 && !glyph && nagFirst) emitNag();
+        if (!c.post.empty()) emitComment(out, rng, c.post, true);
+        if (c.nag > 0 && !glyph && !nagFirst) emitNag();
     };
-    writeMove(main);
+    emitMove(main);
     for (size_t k = 1; k < n.children.size(); k++) {
-        os << "( ";
-        writeMove(n.children[k]);
+        out.push_back({K_LPAREN, "("});
+        emitMove(n.children[k]);
         Position p2(pos);
         UndoInfo ui;
         p2.makeMove(n.children[k].move, ui);
-        writeLine(os, rng, p2, n.children[k], longForm);
-        os << ") ";
-        if (rng.chance(20)) os << "\n";
+        emitLine(out, rng, p2, n.children[k], longForm);
+        out.push_back({K_RPAREN, ")"});
     }
     UndoInfo ui;
     pos.makeMove(main.move, ui);
-    writeLine(os, rng, pos, main, longForm);
+    emitLine(out, rng, pos, main, longForm);
+}
+
+// glued adjacency classes "<kind><kind>" and the number of separated boundaries, per text
+static std::string printTokens(const std::vector<PTok>& toks, Rng& rng, std::map<std::string, int>& classes, bool trailing) {
+    static const char* seps[] = {" ", " ", " ", "\n", "  ", "\t", " \n", "\r\n", "\n\n"};
+    std::string text;
+    int glueBias = rng.below(3);      // 0: mostly spaced, 1: mixed, 2: as compact as the grammar allows
+    for (size_t i = 0; i < toks.size(); i++) {
+        if (i > 0) {
+            const PTok& a = toks[i - 1];
+            const PTok& b = toks[i];
+            bool must = needSep(a, b);
+            bool glue = !must && (glueBias == 2 ? rng.chance(92) : glueBias == 1 ? rng.chance(50) : rng.chance(15));
+            if (glue) {
+                classes[std::string(pkName[a.kind]) + "+" + pkName[b.kind]]++;
+            } else {
+                text += seps[rng.below((int)(sizeof(seps) / sizeof(seps[0])))];
+                classes[must ? "separated(required)" : "separated(optional)"]++;
+            }
+        }
+        text += toks[i].text;
+    }
+    if (trailing) text += rng.chance(50) ? "\n" : " ";
+    else if (!toks.empty()) classes[std::string(pkName[toks.back().kind]) + "+eof"]++;
+    return text;
 }
 
 static bool sameTree(const TNode& a, const std::shared_ptr<Node>& b, bool withText, std::string& why) {
@@ -339,6 +390,35 @@ static bool sameTree(const TNode& a, const std::shared_ptr<Node>& b, bool withTe
     return true;
 }
 
+// both trees in one notation (PGN order), for the replay: move[$nag][{pre|post}] ( variation ) ...
+static void dumpT(std::string& o, const TNode& n) {
+    if (n.children.empty()) return;
+    auto one = [&](const TNode& x) {
+        o += TextIO::moveToUCIString(x.move);
+        if (x.nag) o += "$" + std::to_string(x.nag);
+        if (!x.pre.empty() || !x.post.empty()) o += "{" + escComment(x.pre) + "|" + escComment(x.post) + "}";
+        o += " ";
+    };
+    one(n.children[0]);
+    for (size_t k = 1; k < n.children.size(); k++) {
+        o += "( ";
+        one(n.children[k]);
+        dumpT(o, n.children[k]);
+        o += ") ";
+    }
+    dumpT(o, n.children[0]);
+}
+static void toTNode(const std::shared_ptr<Node>& n, TNode& t) {
+    for (const auto& ch : n->getChildren()) {
+        TNode c;
+        c.move = ch->getMove(); c.nag = ch->getNag(); c.pre = ch->getPreComment(); c.post = ch->getPostComment();
+        toTNode(ch, c);
+        t.children.push_back(c);
+    }
+}
+static std::string dumpExpected(const TNode& root) { std::string o; dumpT(o, root); return toHexStr(o); }
+static std::string dumpParsed(const std::shared_ptr<Node>& root) { TNode t; toTNode(root, t); std::string o; dumpT(o, t); return toHexStr(o); }
+
 static void pgnRoundTrip(std::ostream& out, u64 seed, int size, const std::string& fen, bool ownWriter, bool textOnly = false) {
     Rng rng(seed);
     Position start;
@@ -349,16 +429,25 @@ static void pgnRoundTrip(std::ostream& out, u64 seed, int size, const std::strin
     std::string text;
     std::string startFen = TextIO::toFEN(start);
     bool std0 = startFen == TextIO::startPosFEN;
+    std::map<std::string, int> classes;
     if (ownWriter) {
-        std::ostringstream os;
-        os << "[Event \"c17 \\\"quoted\\\" \\\\ event\"]\n[Site \"?\"]\n";
-        if (!std0 || rng.chance(50)) os << "[SetUp \"1\"]\n[FEN \"" << startFen << "\"]\n";
-        os << "\n";
+        std::vector<PTok> toks;
+        auto tag = [&](const std::string& name, const std::string& quoted) {
+            toks.push_back({K_LBRACKET, "["}); toks.push_back({K_TAGNAME, name});
+            toks.push_back({K_STRING, quoted}); toks.push_back({K_RBRACKET, "]"});
+        };
+        tag("Event", "\"c17 \\\"quoted\\\" \\\\ event\"");
+        tag("Site", "\"?\"");
+        if (!std0 || rng.chance(50)) { tag("SetUp", "\"1\""); tag("FEN", "\"" + startFen + "\""); }
         bool longForm = rng.chance(25);
-        writeLine(os, rng, start, root, longForm);
+        emitLine(toks, rng, start, root, longForm);
+        // the game termination marker, sometimes missing (the last move / NAG / comment then ends the text)
         static const char* results[] = {"1-0", "0-1", "1/2-1/2", "*"};
-        os << results[rng.below(4)] << "\n";
-        text = os.str();
+        if (rng.chance(80)) {
+            int r = rng.below(4);
+            toks.push_back({r == 3 ? K_ASTERISK : K_RESULT, results[r]});
+        }
+        text = printTokens(toks, rng, classes, rng.chance(60));
     } else {
         // the repo's own writer: GameTree built through GameNode::insertMove, then getGameTreeString
         GameTree gt;
@@ -387,20 +476,28 @@ static void pgnRoundTrip(std::ostream& out, u64 seed, int size, const std::strin
     try {
         ok = reader.readPGN(tree);
     } catch (const ChessParseError& e) {
-        out << "T 0 parse-error:" << e.what() << " text=" << toHexStr(text) << '\n';
+        out << "T 0 parse-error:" << e.what() << " text=" << toHexStr(text) << " want=" << dumpExpected(root) << " got=-" << '\n';
         return;
     }
     if (!ok) { out << "T 0 readPGN-false text=" << toHexStr(text) << '\n'; return; }
     GameNode rn = tree.getRootNode();
     if (TextIO::toFEN(rn.getPos()) != startFen) { out << "T 0 start-position text=" << toHexStr(text) << '\n'; return; }
     std::string why;
-    if (!sameTree(root, rn.getNode(), ownWriter, why)) { out << "T 0 tree-differs:" << why << " text=" << toHexStr(text) << '\n'; return; }
+    if (!sameTree(root, rn.getNode(), ownWriter, why)) {
+        out << "T 0 tree-differs:" << why << " text=" << toHexStr(text) << " want=" << dumpExpected(root) << " got=" << dumpParsed(rn.getNode()) << '\n';
+        return;
+    }
     if (ownWriter) {
         std::map<std::string, std::string> hd;
         tree.getHeaders(hd);
         if (hd["Event"] != "c17 \"quoted\" \\ event") { out << "T 0 header-event text=" << toHexStr(text) << '\n'; return; }
     }
     out << "T 1 " << st.nodes << ' ' << st.vars << ' ' << st.comments << ' ' << st.nags << ' ' << st.depth << '\n';
+    if (!classes.empty()) {
+        out << "A";
+        for (const auto& kv : classes) out << ' ' << kv.first << '=' << kv.second;
+        out << '\n';
+    }
 }
 
 static int countNodes(const std::shared_ptr<Node>& n) {
